@@ -182,6 +182,16 @@ def shape_of(c, p):
     return next(s["shape"] for s in c["services"] if s["j"] == p["svc"])
 
 
+def key_of(case, p):
+    """(how the identification request of a matching parameter is addressed, its bytes): only the matching parameters of
+    base variants choose the addressing, all others use physical addressing"""
+    return (bool(p["phys"]) if case["flavour"] == "base" else True, bytes([0x22, 0xF1, p["svc"]]))
+
+
+def ecu_to_json(ecu):
+    return {("p" if ph else "f") + ":" + k.hex(): v.hex() for (ph, k), v in ecu.items()}
+
+
 def run_impl(case, db, ecu, use_cache):
     from odxtools.variantmatcher import VariantMatcher
     cands = [db.diag_layers[f"EV{i}"] for i in range(len(case["variants"]))]
@@ -191,8 +201,8 @@ def run_impl(case, db, ecu, use_cache):
 
     def go():
         for phys, rq in m.request_loop():
-            issued.append(bytes(rq))
-            buf[:] = ecu[bytes(rq)]
+            issued.append((bool(phys), bytes(rq)))
+            buf[:] = ecu[(bool(phys), bytes(rq))]
             m.evaluate(buf)
         return m.has_match(), (None if m.matching_variant is None else m.matching_variant.short_name)
 
@@ -216,11 +226,11 @@ def run_impl_interrupted(case, db, ecu, use_cache, k):
                 if n == k:
                     raise TimeoutError("no answer")
                 n += 1
-                m.evaluate(ecu[bytes(rq)])
+                m.evaluate(ecu[(bool(phys), bytes(rq))])
         except TimeoutError:
             pass
         for phys, rq in m.request_loop():
-            m.evaluate(ecu[bytes(rq)])
+            m.evaluate(ecu[(bool(phys), bytes(rq))])
         return m.has_match(), (None if m.matching_variant is None else m.matching_variant.short_name)
 
     r, e, _ = cc.guarded(go, timeout=10)
@@ -239,16 +249,21 @@ def main(argv=None):
     cases = []
     if ck.replay:
         rp = json.load(open(ck.replay))["replay"]
-        cases.append((rp["case"], [{bytes.fromhex(k): bytes.fromhex(v) for k, v in rp["ecu"].items()}]))
+        cases.append((rp["case"], [{(k[0] == "p", bytes.fromhex(k[2:])): bytes.fromhex(v) for k, v in rp["ecu"].items()}]))
     else:
         for _ in range(70 if quick else 900):
             c = gen(rng)
-            rqs = [bytes([0x22, 0xF1, s["j"]]) for s in c["services"]]
+            # the ECU answers per (addressing, request): a functionally addressed request may be answered differently
+            used = sorted({key_of(c, p) for pats in c["variants"] for pat in pats for p in pat})
+            rqs = sorted(set([(True, bytes([0x22, 0xF1, s["j"]])) for s in c["services"]] + used))
             # every response function over a small alphabet of answers (exhaustive for <= 2 services)
             answers = lambda j: [bytes([0x62, 0xF1, j, 1, 2]), bytes([0x62, 0xF1, j, 2, 1]), bytes([0x62, 0xF1, j, 0, 0]),
                                  bytes([0x62, 0xF1, j, 0]), bytes([0x7F, 0x22, 0x31]), b"", bytes([0x7F, 0x22, 0x31, 0x02, 0x00]),
                                  bytes([0x62, 0xF1, j]), bytes([0x7F, 0x22, 0x01]), bytes([0x7F, 0x22, 0x02, 0x01])]
-            combos = list(itertools.product(*[answers(s["j"]) for s in c["services"]]))
+            if len(rqs) <= 2:
+                combos = list(itertools.product(*[answers(k_[1][2]) for k_ in rqs]))
+            else:
+                combos = [tuple(rng.choice(answers(k_[1][2])) for k_ in rqs) for _ in range(300)]
             if len(combos) > (36 if quick else 216):
                 combos = rng.sample(combos, 36 if quick else 216)
             cases.append((c, [dict(zip(rqs, cb)) for cb in combos]))
@@ -260,7 +275,7 @@ def main(argv=None):
             ecu_t = []
             for rq, rs in ecu.items():
                 resp_ids.setdefault(rs, len(resp_ids) + 1)
-                ecu_t.append([rq[2], resp_ids[rs]])
+                ecu_t.append([2 * rq[1][2] + (0 if rq[0] else 1), resp_ids[rs]])
             pid = 0
             m_t = []
             vs = []
@@ -272,7 +287,8 @@ def main(argv=None):
                         pid += 1
                         for rs, rid in resp_ids.items():
                             m_t.append([pid, rid, ref_match(p, rs, c.get("layouts", [0] * 99)[vi_], shape_of(c, p))])
-                        pp.append([p["svc"], pid])
+                        k_ = key_of(c, p)
+                        pp.append([2 * k_[1][2] + (0 if k_[0] else 1), pid])
                     vp.append(pp)
                 vs.append(vp)
             for uc in (True, False):
@@ -301,16 +317,16 @@ def main(argv=None):
         ck.hist("flavour", c["flavour"])
         ck.hist("variants", len(c["variants"]))
         for ei, ecu in enumerate(ecus):
-            ck.count((json.dumps(c), sorted((k.hex(), v.hex()) for k, v in ecu.items())),
+            ck.count((json.dumps(c), sorted(ecu_to_json(ecu).items())),
                      nontrivial=len(c["variants"]) >= 1)
-            rep = {"case": c, "ecu": {k.hex(): v.hex() for k, v in ecu.items()}}
+            rep = {"case": c, "ecu": ecu_to_json(ecu)}
             # the specification
             want = None
             for i, pats in enumerate(c["variants"]):
-                if any(all(ref_match(p, ecu[bytes([0x22, 0xF1, p["svc"]])], c.get("layouts", [0] * 99)[i], shape_of(c, p)) for p in pat) for pat in pats):
+                if any(all(ref_match(p, ecu[key_of(c, p)], c.get("layouts", [0] * 99)[i], shape_of(c, p)) for p in pat) for pat in pats):
                     want = f"EV{i}"
                     break
-            allowed = {bytes([0x22, 0xF1, p["svc"]]) for pats in c["variants"] for pat in pats for p in pat}
+            allowed = {key_of(c, p) for pats in c["variants"] for pat in pats for p in pat}
             res = {}
             bad = None
             for uc in (True, False):
@@ -349,7 +365,7 @@ def main(argv=None):
                 for uc in (True, False):
                     m = mres[(ci, ei, uc)]
                     r, issued = res[uc]
-                    impl = [[] if r[1] is None else [int(r[1][2:])], [rq[2] for rq in issued]]
+                    impl = [[] if r[1] is None else [int(r[1][2:])], [2 * rq[2] + (0 if ph else 1) for ph, rq in issued]]
                     if m != impl:
                         ck.violation(f"implementation and model disagree (cache={uc}): impl {impl} model {m}",
                                      dict(rep, impl=impl, model=m, broken="correspondence Variant.request_loop"),
